@@ -38,7 +38,7 @@ static std::string run_mt(const toks_t& t)
       th.emplace_back([&, k] {
         g_thread = int(k);
         g_rng = uint64_t(rep) * 1000003u + k * 7919u + 12345u;
-        while (g_go.load() == 0) {}
+        while (g_go.load() == 0) std::this_thread::yield();
         try { res[k] = run_case(progs[k]); }
         catch (const std::exception& e) { res[k] = std::string("EXC ") + e.what(); }
       });
